@@ -383,6 +383,44 @@ fn environment_part(rep: &mut Report) {
                 }
             }
         }
+        // routes: the same stage printed through another subcommand / option must be the same text
+        // (`codegen --print-ir` writes all intermediate representations from ONE driver object that has
+        // already computed the later stages)
+        if let Some((e0, base_files)) = &reference {
+            for backend in ["x86-64", "aarch64", "rv64"] {
+                let wd = base.join(format!("route-print-ir-{backend}")).join("w1");
+                let _ = std::fs::create_dir_all(&wd);
+                std::fs::write(wd.join("prog.sc"), &src).unwrap();
+                let mut cmd = Command::new(&scc);
+                cmd.current_dir(&wd).env_clear().env("PATH", "/usr/bin:/bin");
+                cmd.arg("codegen").arg("prog.sc").arg(backend).arg("--print-ir");
+                let _ = cmd.output();
+                let mut files = Vec::new();
+                read_tree(&wd.join("target_scc"), &mut files, &wd);
+                files.retain(|(p, _)| p.ends_with(".txt") || p.ends_with(".asm") || p.ends_with(".s") || p.ends_with(".S"));
+                rep.count("cases", 1);
+                rep.count("transitions", 1);
+                rep.distinct.push(hash64(&("route", &name, backend)));
+                let mut compared = 0u64;
+                for (path, h) in &files {
+                    if let Some((_, h0)) = base_files.iter().find(|(p0, _)| p0 == path) {
+                        compared += 1;
+                        if h0 != h {
+                            rep.violation(
+                                "route".to_string(),
+                                format!("{name}: {path} written by `scc codegen {backend} --print-ir` differs from the file written by the dedicated subcommand (environment {e0})"),
+                                json!({"kind": "env", "program": name, "env_a": e0, "env_b": format!("codegen {backend} --print-ir")}),
+                            );
+                        }
+                    }
+                }
+                rep.count("states", compared);
+                rep.count("route_files_compared", compared);
+                if compared > 0 {
+                    rep.count("traces_validated_against_impl", 1);
+                }
+            }
+        }
     }
     let _ = std::fs::remove_dir_all(&base);
 }
